@@ -6,15 +6,15 @@ SPEC = {
     "bins": ["c01"],
     "model_targets": ["Pat/C01Check.vo"],
     "proof_targets": ["Pat/MatcherProofs.vo", "Pat/ModifiersProofs.vo", "Pat/MatchListProofs.vo",
-                      "Pat/C01CheckProofs.vo", "Pat/Base64Proofs.vo", "Pat/ChainProofs.vo", "Pat/PipelineProofs.vo", "Pat/AtomsProofs.vo", "Pat/PipelineB64Proofs.vo", "Pat/ChainRunProofs.vo", "Pat/ChainCompleteProofs.vo"],
+                      "Pat/C01CheckProofs.vo", "Pat/Base64Proofs.vo", "Pat/ChainProofs.vo", "Pat/PipelineProofs.vo", "Pat/AtomsProofs.vo", "Pat/PipelineB64Proofs.vo", "Pat/ChainRunProofs.vo", "Pat/ChainCompleteProofs.vo", "Pat/PipelineB64CompleteProofs.vo"],
     "assumptions": [
         "the specification of occurrences (Pat/Sem.v, Pat/Modifiers.v) is written from text_patterns.md, hex_patterns.md, regexps.md, differences.md; "
         "where they are silent it accepts the implementation: the neighbouring character of a wide string for fullword, which of several genuine "
         "lengths a regexp reports, assertions inside wide regexps (not generated), base64 occurrences whose 4-character window does not decode",
         "literal family (Literal, LiteralWithMask, Xor, Base64*): handle_atom_match / verify_* are modelled (Pat/Pipeline.v) and proved equal to the "
         "reference under atoms_ok, which K stream (d) evaluates on the REAL sub-patterns and atoms of the compiled rules (hook Rules::verif_c01_dump); "
-        "the search automaton is assumed to report exactly the atom occurrences (hits_exact: any order); for Base64* the link model -> specification "
-        "is stated, not proved (the 9-entry table is)",
+        "the search automaton is assumed to report exactly the atom occurrences (hits_exact: any order); for Base64* the model is proved sound (ascii; wide for data "
+        "without '=', refuted otherwise: known finding) and complete for whole-group windows, for proper alphabets without '=' (checked on the dump)",
         "chains at run time: handle_sub_pattern_match, within_valid_distance, verify_chain_of_matches (chain_length pruning, greedy reset walk) are "
         "modelled over EVENTS = verified piece matches (Pat/ChainRun.v) and proved sound for every event list and complete on starts for every event "
         "list in which each event starts before the end of every later one (ChainRunProofs, ChainCompleteProofs); K stream (e) feeds the model the REAL "
@@ -229,7 +229,7 @@ MANIFEST = {
                    "operation sequences, and the real Scanner's output for generated (pattern, buffer) pairs is checked by the proven checker."),
     "level_note": ("For the literal family (Literal, LiteralWithMask, Xor, anchored) the scan pipeline is modelled and proved equal to the reference "
                    "under atoms_ok, evaluated on the real atoms (pipeline_literal_family, compile_text_spec); for Base64* the pipeline model is compared "
-                   "exactly but its link to the specification is only stated. The chain bookkeeping at run time is modelled over verified piece matches and proved sound (every reported match is a "
+                   "exactly and proved sound (wide: for data without '=') and complete for whole-group windows. The chain bookkeeping at run time is modelled over verified piece matches and proved sound (every reported match is a "
                    "match of the split pattern, ascii form) and complete on starts for kernel-ordered events; it is compared exactly on the real, "
                    "recorded piece matches. The wide form and the one-end-per-start choice of regexp pieces are REFUTED (known findings). Regexp engines "
                    "(FastVM/PikeVM), Teddy/Aho-Corasick are NOT modelled; they are covered only by the differential streams against the proven reference. "
